@@ -658,4 +658,243 @@ example : zzSubWMod_safe 64 [3, 0] 9 [2 ^ 64 - 1, 5] = [2 ^ 64 - 7, 5]
     ∧ zzSubWMod_fast 64 [3, 0] 9 [2 ^ 64 - 1, 5] = [2 ^ 64 - 7, 5]
     ∧ zzSubWMod_safe 64 [3, 1] 9 [2 ^ 64 - 1, 5] = [2 ^ 64 - 6, 0] := by decide
 
+/-- FAST(zzNegMod): `b = (-a) mod mod`, i.e. `mod - a` for `a ≠ 0` and 0 for `a = 0`. -/
+theorem zzNegMod_fast_spec (w : Nat) (a mod : List Nat)
+    (ha : Wf w a) (hm : Wf w mod) (hl : a.length = mod.length) (hA : val w a < val w mod) :
+    val w (zzNegMod_fast w a mod) = (val w mod - val w a) % val w mod
+    ∧ val w (zzNegMod_fast w a mod) < val w mod
+    ∧ Wf w (zzNegMod_fast w a mod) ∧ (zzNegMod_fast w a mod).length = a.length := by
+  obtain ⟨h1, h2, h3, h4⟩ := zzSub_spec w mod a hm ha hl.symm
+  rw [if_neg (by omega)] at h2
+  rw [h2] at h1
+  unfold zzNegMod_fast
+  rw [wwIsZero_safe_spec w a]
+  by_cases hz : val w a = 0
+  · simp only [hz, decide_true, Bool.not_true, Bool.false_eq_true, if_false, Nat.sub_zero,
+      Nat.mod_self, val_map_zero, List.length_map, and_true, true_and]
+    refine ⟨by omega, ?_⟩
+    intro x hx
+    obtain ⟨_, _, rfl⟩ := List.mem_map.mp hx
+    exact Nat.two_pow_pos w
+  · simp only [hz, decide_false, Bool.not_false, if_true]
+    rw [Nat.mod_eq_of_lt (by omega)]
+    exact ⟨by omega, by omega, h3, h4.trans hl.symm⟩
+
+/-- SAFE(zzNegMod). -/
+theorem zzNegMod_safe_spec (w : Nat) (a mod : List Nat)
+    (ha : Wf w a) (hm : Wf w mod) (hl : a.length = mod.length) (hA : val w a < val w mod) :
+    val w (zzNegMod_safe w a mod) = (val w mod - val w a) % val w mod
+    ∧ val w (zzNegMod_safe w a mod) < val w mod
+    ∧ Wf w (zzNegMod_safe w a mod) ∧ (zzNegMod_safe w a mod).length = a.length := by
+  have hw : 0 < w := pos_w_of_val_pos hm (by omega)
+  have h2w := two_le_two_pow hw
+  obtain ⟨h1, h2, h3, h4⟩ := zzSub_spec w mod a hm ha hl.symm
+  rw [if_neg (by omega)] at h2
+  rw [h2] at h1
+  have heq := wwEq_safe_spec w (zzSub w mod a).1 mod h3 hm h4
+  have hk : (if wwEq_safe (zzSub w mod a).1 mod then 1 else 0) ≤ 1 := by split_ifs <;> omega
+  have hmk : wneg w (if wwEq_safe (zzSub w mod a).1 mod then 1 else 0)
+      = if val w a = 0 then 2 ^ w - 1 else 0 := by
+    rw [wneg01 hw hk, heq]
+    by_cases hz : val w a = 0
+    · have : val w (zzSub w mod a).1 = val w mod := by omega
+      simp [this, hz]
+    · have : val w (zzSub w mod a).1 ≠ val w mod := by omega
+      simp [this, hz]
+  have hMP := val_lt hm
+  have key : ∀ mk, mk = (if val w a = 0 then 2 ^ w - 1 else 0) →
+      val w (zzSubAndW w (zzSub w mod a).1 mod mk).1 = (val w mod - val w a) % val w mod
+      ∧ val w (zzSubAndW w (zzSub w mod a).1 mod mk).1 < val w mod
+      ∧ Wf w (zzSubAndW w (zzSub w mod a).1 mod mk).1
+      ∧ (zzSubAndW w (zzSub w mod a).1 mod mk).1.length = a.length := by
+    intro mk hmk'
+    have hm01 : mk = 0 ∨ mk = 2 ^ w - 1 := by rw [hmk']; split_ifs <;> simp
+    obtain ⟨s1, s2, s3, s4⟩ := zzSubAndW_mask w (zzSub w mod a).1 mod mk hm01 h3 hm h4
+    have hs := val_lt s3
+    rw [s4, h4] at hs
+    rw [h4] at s1
+    have e2 := mul01 (2 ^ (w * mod.length)) (c := (zzSubAndW w (zzSub w mod a).1 mod mk).2)
+      (by rw [s2]; split_ifs <;> omega)
+    refine ⟨?_, ?_, s3, by rw [s4, h4, hl]⟩
+    · by_cases hz : val w a = 0
+      · rw [if_pos hz] at hmk'
+        rw [if_neg (by omega)] at s1
+        rw [hz, Nat.sub_zero, Nat.mod_self]
+        split_ifs at e2 <;> omega
+      · rw [if_neg hz] at hmk'
+        rw [if_pos hmk'] at s1
+        rw [Nat.mod_eq_of_lt (by omega)]
+        split_ifs at e2 <;> omega
+    · by_cases hz : val w a = 0
+      · rw [if_pos hz] at hmk'
+        rw [if_neg (by omega)] at s1
+        split_ifs at e2 <;> omega
+      · rw [if_neg hz] at hmk'
+        rw [if_pos hmk'] at s1
+        split_ifs at e2 <;> omega
+  exact key _ hmk
+
+theorem zzNegMod_safe_eq_fast (w : Nat) (a mod : List Nat)
+    (ha : Wf w a) (hm : Wf w mod) (hl : a.length = mod.length) (hA : val w a < val w mod) :
+    zzNegMod_safe w a mod = zzNegMod_fast w a mod := by
+  obtain ⟨s1, _, s3, s4⟩ := zzNegMod_safe_spec w a mod ha hm hl hA
+  obtain ⟨f1, _, f3, f4⟩ := zzNegMod_fast_spec w a mod ha hm hl hA
+  exact val_inj s3 f3 (s4.trans f4.symm) (s1.trans f1.symm)
+
+example : zzNegMod_safe 64 [3, 0, 1] [1, 0, 2] = [2 ^ 64 - 2, 2 ^ 64 - 1, 0]
+    ∧ zzNegMod_fast 64 [3, 0, 1] [1, 0, 2] = [2 ^ 64 - 2, 2 ^ 64 - 1, 0]
+    ∧ zzNegMod_safe 64 [0, 0, 0] [1, 0, 2] = [0, 0, 0]
+    ∧ zzNegMod_fast 64 [0, 0, 0] [1, 0, 2] = [0, 0, 0] := by decide
+
+/-- FAST(zzDoubleMod): `b = 2a mod mod`. -/
+theorem zzDoubleMod_fast_spec (w : Nat) (a mod : List Nat)
+    (ha : Wf w a) (hm : Wf w mod) (hl : a.length = mod.length) (hA : val w a < val w mod) :
+    val w (zzDoubleMod_fast w a mod) = (2 * val w a) % val w mod
+    ∧ val w (zzDoubleMod_fast w a mod) < val w mod
+    ∧ Wf w (zzDoubleMod_fast w a mod) ∧ (zzDoubleMod_fast w a mod).length = a.length := by
+  have hw : 0 < w := pos_w_of_val_pos hm (by omega)
+  obtain ⟨h1, h2, h3, h4⟩ := zzDoubleLoop_spec w hw a 0 ha (by omega)
+  have hl' : (zzDoubleLoop w a 0).1.length = mod.length := h4.trans hl
+  have hcmp : wwCmp_safe (zzDoubleLoop w a 0).1 mod
+      = cmp3 (val w (zzDoubleLoop w a 0).1) (val w mod) := by
+    rw [wwCmp_safe_eq_fast]; exact wwCmp_fast_eq w _ mod h3 hm hl'
+  rw [← h4, Nat.add_zero] at h1
+  have := redFast w (zzDoubleLoop w a 0).1 mod (zzDoubleLoop w a 0).2 _ _ h3 hm hl' h1 h2
+    (by omega) hcmp
+  rw [h4] at this
+  exact this
+
+/-- SAFE(zzDoubleMod). -/
+theorem zzDoubleMod_safe_spec (w : Nat) (a mod : List Nat)
+    (ha : Wf w a) (hm : Wf w mod) (hl : a.length = mod.length) (hA : val w a < val w mod) :
+    val w (zzDoubleMod_safe w a mod) = (2 * val w a) % val w mod
+    ∧ val w (zzDoubleMod_safe w a mod) < val w mod
+    ∧ Wf w (zzDoubleMod_safe w a mod) ∧ (zzDoubleMod_safe w a mod).length = a.length := by
+  have hw : 0 < w := pos_w_of_val_pos hm (by omega)
+  obtain ⟨h1, h2, h3, h4⟩ := zzDoubleLoop_spec w hw a 0 ha (by omega)
+  have hl' : (zzDoubleLoop w a 0).1.length = mod.length := h4.trans hl
+  rw [← h4, Nat.add_zero] at h1
+  have := redSafe w hw (zzDoubleLoop w a 0).1 mod (zzDoubleLoop w a 0).2 _ h3 hm hl' h1 h2 (by omega)
+  rw [h4] at this
+  unfold zzDoubleMod_safe
+  rw [zzDoubleMod_safeLoop_eq w a mod 0 1 hl]
+  exact this
+
+theorem zzDoubleMod_safe_eq_fast (w : Nat) (a mod : List Nat)
+    (ha : Wf w a) (hm : Wf w mod) (hl : a.length = mod.length) (hA : val w a < val w mod) :
+    zzDoubleMod_safe w a mod = zzDoubleMod_fast w a mod := by
+  obtain ⟨s1, _, s3, s4⟩ := zzDoubleMod_safe_spec w a mod ha hm hl hA
+  obtain ⟨f1, _, f3, f4⟩ := zzDoubleMod_fast_spec w a mod ha hm hl hA
+  exact val_inj s3 f3 (s4.trans f4.symm) (s1.trans f1.symm)
+
+example : zzDoubleMod_safe 64 [2 ^ 63 + 1, 2 ^ 63] [5, 2 ^ 64 - 1] = [2 ^ 64 - 3, 1]
+    ∧ zzDoubleMod_fast 64 [2 ^ 63 + 1, 2 ^ 63] [5, 2 ^ 64 - 1] = [2 ^ 64 - 3, 1]
+    ∧ zzDoubleMod_safe 64 [2 ^ 63 + 1, 3] [5, 2 ^ 64 - 1] = [2, 7] := by decide
+
+/-- FAST(zzHalfMod): `b = a / 2 mod mod` for odd `mod`:
+    `2 b = a` (a even) or `2 b = a + mod` (a odd), hence `2 b ≡ a (mod mod)` and `b < mod`.
+    Not needed: `mod[n-1] ≠ 0`; `n > 0` follows from `a < mod`. -/
+theorem zzHalfMod_fast_spec (w : Nat) (a mod : List Nat)
+    (ha : Wf w a) (hm : Wf w mod) (hl : a.length = mod.length)
+    (hodd : val w mod % 2 = 1) (hA : val w a < val w mod) :
+    2 * val w (zzHalfMod_fast w a mod) = (if val w a % 2 = 1 then val w a + val w mod else val w a)
+    ∧ (2 * val w (zzHalfMod_fast w a mod)) % val w mod = val w a
+    ∧ val w (zzHalfMod_fast w a mod) < val w mod
+    ∧ Wf w (zzHalfMod_fast w a mod) ∧ (zzHalfMod_fast w a mod).length = a.length := by
+  have hw : 0 < w := pos_w_of_val_pos hm (by omega)
+  obtain ⟨k, rfl⟩ : ∃ k, w = k + 1 := ⟨w - 1, by omega⟩
+  have hne : a ≠ [] := by
+    intro h; rw [h] at hl
+    exact ne_nil_of_val_pos (w := k + 1) (m := mod) (by omega) (List.length_eq_zero_iff.mp hl.symm)
+  have hn : 0 < a.length := List.length_pos_iff.mpr hne
+  unfold zzHalfMod_fast
+  by_cases hoa : val (k + 1) a % 2 = 1
+  · rw [if_pos ((zzIsOdd_iff k a).mpr hoa), if_pos hoa]
+    obtain ⟨h1, h2, h3, h4⟩ := zzAdd_spec (k + 1) a mod ha hm hl
+    have hne' : (zzAdd (k + 1) a mod).1 ≠ [] := by
+      intro h; rw [h] at h4; simp at h4; omega
+    obtain ⟨g1, g2, g3⟩ := halfShift_spec k (zzAdd (k + 1) a mod).1 (zzAdd (k + 1) a mod).2 h3 h2 hne'
+    rw [h4] at g1 g3
+    obtain ⟨q, hq⟩ := pow_even k a.length hn (zzAdd (k + 1) a mod).2
+    simp only []
+    have e : 2 * val (k + 1) (zzHalfLoop (k + 1) (zzAdd (k + 1) a mod).1.reverse (zzAdd (k + 1) a mod).2).reverse
+        = val (k + 1) a + val (k + 1) mod := by omega
+    refine ⟨e, ?_, by omega, g2, g3⟩
+    rw [e, Nat.add_mod_right, Nat.mod_eq_of_lt hA]
+  · have hz : zzIsOdd a = false := by
+      rw [← Bool.not_eq_true, zzIsOdd_iff k a]; exact hoa
+    rw [hz, if_neg hoa]
+    obtain ⟨g1, g2, g3⟩ := halfShift_spec k a 0 ha (by omega) hne
+    simp only [Bool.false_eq_true, if_false]
+    have e : 2 * val (k + 1) (zzHalfLoop (k + 1) a.reverse 0).reverse = val (k + 1) a := by omega
+    refine ⟨e, ?_, by omega, g2, g3⟩
+    rw [e, Nat.mod_eq_of_lt hA]
+
+/-- SAFE(zzHalfMod). -/
+theorem zzHalfMod_safe_spec (w : Nat) (a mod : List Nat)
+    (ha : Wf w a) (hm : Wf w mod) (hl : a.length = mod.length)
+    (hodd : val w mod % 2 = 1) (hA : val w a < val w mod) :
+    2 * val w (zzHalfMod_safe w a mod) = (if val w a % 2 = 1 then val w a + val w mod else val w a)
+    ∧ (2 * val w (zzHalfMod_safe w a mod)) % val w mod = val w a
+    ∧ val w (zzHalfMod_safe w a mod) < val w mod
+    ∧ Wf w (zzHalfMod_safe w a mod) ∧ (zzHalfMod_safe w a mod).length = a.length := by
+  have hw : 0 < w := pos_w_of_val_pos hm (by omega)
+  obtain ⟨k, rfl⟩ : ∃ k, w = k + 1 := ⟨w - 1, by omega⟩
+  cases a with
+  | nil =>
+    exfalso
+    exact ne_nil_of_val_pos (w := k + 1) (m := mod) (by omega) (List.length_eq_zero_iff.mp hl.symm)
+  | cons a0 as =>
+    cases mod with
+    | nil => simp at hl
+    | cons m0 ms =>
+      have hl' : as.length = ms.length := by simpa using hl
+      obtain ⟨g1, g2, g3⟩ := zzHalfMod_safe_val k a0 as m0 ms ha hm hl'
+      have hbit : a0 % 2 ≤ 1 := by omega
+      have hmask := wneg01 (w := k + 1) (by omega) hbit
+      have h2w := two_le_two_pow (w := k + 1) (by omega)
+      generalize wneg (k + 1) (a0 % 2) = mask at *
+      have hm01 : mask = 0 ∨ mask = 2 ^ (k + 1) - 1 := by
+        rw [hmask]; split_ifs <;> simp
+      have hmz : mask = 0 ↔ a0 % 2 = 0 := by
+        rw [hmask]; split_ifs <;> omega
+      obtain ⟨l1, l2, _, _⟩ := loop2_add (fAdd3_ok (k + 1)) (a0 :: as)
+        ((m0 :: ms).map (mask &&& ·)) 0 ha (Wf_map_and hm _) (by simpa using hl)
+        (by omega)
+      rw [val_map_and (k + 1) (m0 :: ms) hm _ hm01] at l1
+      have hpar : val (k + 1) (a0 :: as) % 2 = a0 % 2 := val_mod_two k a0 as
+      obtain ⟨q, hq⟩ := pow_even k (as.length + 1) (by omega)
+        (loop2 (fAdd3 (k + 1)) (a0 :: as) ((m0 :: ms).map (mask &&& ·)) 0).2
+      rw [List.length_cons] at l1
+      have e : 2 * val (k + 1) (zzHalfMod_safe (k + 1) (a0 :: as) (m0 :: ms))
+          = if val (k + 1) (a0 :: as) % 2 = 1 then val (k + 1) (a0 :: as) + val (k + 1) (m0 :: ms)
+            else val (k + 1) (a0 :: as) := by
+        by_cases hz : a0 % 2 = 0
+        · rw [if_pos (hmz.mpr hz)] at l1
+          rw [if_neg (by omega)]
+          omega
+        · rw [if_neg (fun h => hz (hmz.mp h))] at l1
+          rw [if_pos (by omega)]
+          omega
+      refine ⟨e, ?_, ?_, g2, by rw [g3, List.length_cons]⟩
+      · rw [e]
+        split_ifs
+        · rw [Nat.add_mod_right, Nat.mod_eq_of_lt hA]
+        · exact Nat.mod_eq_of_lt hA
+      · split_ifs at e <;> omega
+
+/-- the two editions of zzHalfMod return the same words. -/
+theorem zzHalfMod_safe_eq_fast (w : Nat) (a mod : List Nat)
+    (ha : Wf w a) (hm : Wf w mod) (hl : a.length = mod.length)
+    (hodd : val w mod % 2 = 1) (hA : val w a < val w mod) :
+    zzHalfMod_safe w a mod = zzHalfMod_fast w a mod := by
+  obtain ⟨s1, _, _, s3, s4⟩ := zzHalfMod_safe_spec w a mod ha hm hl hodd hA
+  obtain ⟨f1, _, _, f3, f4⟩ := zzHalfMod_fast_spec w a mod ha hm hl hodd hA
+  exact val_inj s3 f3 (s4.trans f4.symm) (by omega)
+
+example : zzHalfMod_safe 64 [3, 2 ^ 64 - 1, 5] [2 ^ 64 - 1, 2, 2 ^ 64 - 1] = [1, 2 ^ 63 + 1, 2 ^ 63 + 2]
+    ∧ zzHalfMod_fast 64 [3, 2 ^ 64 - 1, 5] [2 ^ 64 - 1, 2, 2 ^ 64 - 1] = [1, 2 ^ 63 + 1, 2 ^ 63 + 2]
+    ∧ zzHalfMod_safe 64 [4, 3, 5] [2 ^ 64 - 1, 2, 2 ^ 64 - 1] = [2 ^ 63 + 2, 2 ^ 63 + 1, 2]
+    ∧ zzHalfMod_fast 64 [4, 3, 5] [2 ^ 64 - 1, 2, 2 ^ 64 - 1] = [2 ^ 63 + 2, 2 ^ 63 + 1, 2] := by decide
+
 end Bee2V.C05
